@@ -323,6 +323,18 @@ struct Survivor {
 }
 
 impl Survivor {
+    /// like `start`, for a helper that announces itself with another first line
+    fn start_with(exe: &PathBuf, args: &[String], ready: &str) -> Result<Survivor, String> {
+        let mut child = Command::new(exe).args(args).stdin(Stdio::piped()).stdout(Stdio::piped()).stderr(Stdio::null()).spawn().map_err(|e| format!("{e}"))?;
+        let out = BufReader::new(child.stdout.take().unwrap());
+        let mut s = Survivor { child, out };
+        let l = s.read_line(Duration::from_secs(20))?;
+        if l.trim() != ready {
+            return Err(format!("helper said {l:?} instead of {ready}"));
+        }
+        Ok(s)
+    }
+
     fn start(exe: &PathBuf, args: &[String]) -> Result<Survivor, String> {
         let mut child = Command::new(exe)
             .args(args)
@@ -753,6 +765,73 @@ fn cleaner_point(s: &Scenario, k: Option<usize>, kill_a: bool, expect_shape: Opt
     remove_domain(&d);
     res.wall_ms = t0.elapsed().as_millis() as u64;
     Ok((res, a.log.clone()))
+}
+
+// ---------------------------------------------------------------------------------------
+// C07 cleaner leg, refused cleaner: another process holds a lock on the owner-lock file of the dead
+// node at the moment a cleaner tries to take it (the position of a cleaner that lost the race for
+// the lock). The refused cleaner must be told so and must leave the monitoring files alone; once
+// the lock is gone a cleaner succeeds.
+
+fn refused_cleaner_point(s: &Scenario) -> Result<(PointResult, Vec<Sys>), String> {
+    let t0 = Instant::now();
+    let d = new_domain();
+    let args = scn_args(s, &d);
+    let mut res = PointResult { scenario: format!("refused-cleaner({})", s.name()), k: 0, shape: "(another process holds the owner lock)".into(), phase: "cleanup-refused".into(), ..Default::default() };
+    if let Err(e) = make_dead_victim(s, &d) {
+        remove_domain(&d);
+        return Err(e);
+    }
+    let monitor_files = |d: &Domain| -> Vec<String> { leftovers(d).into_iter().filter(|l| l.contains(".node_monitor")).collect() };
+    let before = monitor_files(&d);
+    let owner_lock = std::fs::read_dir(format!("{}nodes", d.root)).ok().and_then(|rd| rd.flatten().map(|e| e.path()).find(|p| p.to_string_lossy().ends_with(".node_monitor_owner_lock")));
+    let Some(owner_lock) = owner_lock else {
+        remove_domain(&d);
+        return Err("refused-cleaner: the dead victim has no owner-lock file".into());
+    };
+    let mut holder = match Survivor::start_with(&std::env::current_exe().unwrap(), &["--hold-lock".to_string(), owner_lock.to_string_lossy().to_string()], "LOCKED") {
+        Ok(h) => h,
+        Err(e) => {
+            remove_domain(&d);
+            return Err(format!("refused-cleaner: lock holder: {e}"));
+        }
+    };
+    match run_untraced("crash_cleaner", &args, Duration::from_secs(40)) {
+        Ok(out) => {
+            res.notes.push(format!("while the lock is held: {}", out.trim().replace('\n', " | ")));
+            if clean_ok_count(&out) > 0 {
+                res.problems.push("c07-cleanup-not-exclusive: a cleaner reports a successful cleanup although another process holds the owner lock".to_string());
+            }
+            for r in refusals(&out) {
+                if !["AnotherInstanceIsCleaningUpTheNode", "ResourcesAlreadyCleanedUp"].contains(&r.as_str()) {
+                    res.problems.push(format!("c07-cleaner-refusal-undocumented: the refused cleaner was told {r}"));
+                }
+            }
+        }
+        Err(e) => res.problems.push(format!("c07-cleaner-hang: refused cleaner: {e}")),
+    }
+    let after = monitor_files(&d);
+    if after != before {
+        res.problems.push(format!("c07-refused-cleaner-removed-files: the monitoring files of the dead node changed from {before:?} to {after:?} although the cleaner was refused"));
+    }
+    let _ = holder.finish();
+    match run_untraced("crash_cleaner", &args, Duration::from_secs(40)) {
+        Ok(out) => {
+            res.notes.push(format!("after the lock is gone: {}", out.trim().replace('\n', " | ")));
+            let dead = done_field(&out, "remaining_dead=").unwrap_or(99);
+            if dead != 0 {
+                res.problems.push(format!("c07-uncollected-after-cleaners: the lock holder is gone but a cleaner leaves remaining_dead={dead}"));
+            }
+        }
+        Err(e) => res.problems.push(format!("c07-cleaner-hang: cleaner after the lock is gone: {e}")),
+    }
+    res.leftovers = leftovers(&d);
+    if !res.leftovers.is_empty() {
+        res.problems.push(format!("c07-leftover-after-cleaners: {}", res.leftovers.join(", ")));
+    }
+    remove_domain(&d);
+    res.wall_ms = t0.elapsed().as_millis() as u64;
+    Ok((res, Vec::new()))
 }
 
 // ---------------------------------------------------------------------------------------
@@ -1223,6 +1302,7 @@ fn rerun(label: &str, k: Option<usize>, prop: &str) -> Result<(PointResult, Vec<
         "atomic" => atomic_point(&scn, k.map(|k| k as u64)).map(|(r, _)| (r, Vec::new())),
         "race" => race_point(&scn, k, None),
         "cleaner-threads" => cleaner_threads_point(&scn, k, None),
+        "refused-cleaner" => refused_cleaner_point(&scn),
         _ => run_point(&scn, k, None, prop),
     }
 }
@@ -1239,6 +1319,7 @@ fn main() {
     let mut jobs = std::thread::available_parallelism().map(|n| n.get()).unwrap_or(8);
     let mut replay: Option<PathBuf> = None;
     let mut only: Option<String> = None;
+    let mut hold_lock: Option<PathBuf> = None;
     let a: Vec<String> = std::env::args().skip(1).collect();
     let mut i = 0;
     while i < a.len() {
@@ -1271,6 +1352,10 @@ fn main() {
                 only = Some(a[i + 1].clone());
                 i += 1
             }
+            "--hold-lock" => {
+                hold_lock = Some(PathBuf::from(&a[i + 1]));
+                i += 1
+            }
             "--known-file" => {
                 // matching against known findings is done by /verif/check on the signatures
                 i += 1
@@ -1283,6 +1368,30 @@ fn main() {
         i += 1;
     }
     let _ = std::fs::create_dir_all("/verif/.run/ptx");
+    if let Some(f) = hold_lock {
+        // helper process of the "refused cleaner" point: holds a read lock on the file until stdin closes
+        use std::os::unix::io::AsRawFd;
+        let file = match std::fs::OpenOptions::new().read(true).write(true).open(&f) {
+            Ok(f) => f,
+            Err(e) => {
+                println!("HOLD-ERROR open {e}");
+                std::process::exit(3);
+            }
+        };
+        let mut fl: libc::flock = unsafe { std::mem::zeroed() };
+        fl.l_type = libc::F_RDLCK as i16;
+        fl.l_whence = libc::SEEK_SET as i16;
+        let r = unsafe { libc::fcntl(file.as_raw_fd(), libc::F_SETLK, &fl) };
+        if r != 0 {
+            println!("HOLD-ERROR lock");
+            std::process::exit(3);
+        }
+        println!("LOCKED");
+        let _ = std::io::stdout().flush();
+        let mut line = String::new();
+        let _ = std::io::stdin().read_line(&mut line);
+        std::process::exit(0);
+    }
     if let Some(p) = replay {
         std::process::exit(replay_main(&p, &prop));
     }
@@ -1352,6 +1461,19 @@ fn main() {
                     results.push(r);
                 }
                 Err(e) => machinery.push(format!("recording run of the cleaner thread leg failed: {e}")),
+            }
+        }
+    }
+    if prop == "C07" {
+        for s in [Scenario { pattern: "pubsub".into(), role: "A".into(), mode: "shared".into() }, Scenario { pattern: "reqres".into(), role: "B".into(), mode: "shared".into() }] {
+            if only.as_ref().map(|o| format!("refused-cleaner({})", s.name()).contains(o.as_str())).unwrap_or(true) {
+                match refused_cleaner_point(&s) {
+                    Ok((r, _)) => {
+                        rows.push(json!({"scenario": format!("refused-cleaner({})", s.name()), "notes": r.notes, "problems": r.problems}));
+                        results.push(r);
+                    }
+                    Err(e) => machinery.push(format!("refused-cleaner point failed: {e}")),
+                }
             }
         }
     }
